@@ -96,6 +96,9 @@ type Case struct {
 	// kind race (gateway.go): after Steps were written one at a time through the real informer / queue / Run loop,
 	// the writes of Burst are issued back to back
 	Burst []Step `json:"burst,omitempty"`
+	// kind retry (gateway.go): Steps, then the writes of Burst (each refused: a name conflict), the conflict lasts for
+	// many re-deliveries, then the writes of After end it
+	After []Step `json:"after,omitempty"`
 	// kind auth (gateway.go): the gateway is started with (CP) or without --client-ca-file, Steps are written one at
 	// a time, then every exchange of Reqs goes through the shipped TLS + authentication wiring
 	CP   bool  `json:"cp,omitempty"`
@@ -648,6 +651,8 @@ func runCase(c *rig.Ctx, cs Case) (v verdict) {
 		return runRace(c, cs, counting)
 	case "auth":
 		return runAuth(c, cs, counting)
+	case "retry":
+		return runRetry(c, cs, counting)
 	}
 	ex := execute(cs)
 	v.Obs, v.Settled = ex.Obs, ex.Settled
@@ -846,7 +851,7 @@ func cloneCase(cs Case) Case {
 		}
 		return out
 	}
-	x.Steps, x.Burst = cp(cs.Steps), cp(cs.Burst)
+	x.Steps, x.Burst, x.After = cp(cs.Steps), cp(cs.Burst), cp(cs.After)
 	x.Reqs = append([]Req(nil), cs.Reqs...)
 	return x
 }
@@ -861,6 +866,10 @@ func readable(cs Case) interface{} {
 	all := append([]Step{}, cs.Steps...)
 	for _, s := range cs.Burst {
 		s.K = "burst-" + s.K
+		all = append(all, s)
+	}
+	for _, s := range cs.After {
+		s.K = "after-" + s.K
 		all = append(all, s)
 	}
 	for _, s := range all {
@@ -895,6 +904,9 @@ func readable(cs Case) interface{} {
 	out := map[string]interface{}{"kind": cs.Kind, "steps": cs.Steps, "probes": cs.Probes, "snis": cs.SNIs, "text": txt}
 	if len(cs.Burst) > 0 {
 		out["burst"] = cs.Burst
+	}
+	if len(cs.After) > 0 {
+		out["after"] = cs.After
 	}
 	if cs.Kind == "auth" {
 		out["cp"], out["reqs"] = cs.CP, cs.Reqs
@@ -972,7 +984,7 @@ func one(c *rig.Ctx, cs Case, origin string) {
 	v := runCase(c, cs)
 	counting = false
 	nt, bucket := classify(c, cs, v, v.Settled)
-	if cs.Kind == "race" || cs.Kind == "auth" {
+	if cs.Kind == "race" || cs.Kind == "auth" || cs.Kind == "retry" {
 		nt = true
 	}
 	if origin != "" {
@@ -1046,13 +1058,16 @@ func main() {
 		}
 		// gateway level: real informer + queue + Run() (race), shipped TLS / authentication wiring (auth)
 		start := time.Now()
-		nRace, nAuth := c.Budget(40, 320), c.Budget(50, 400)
+		nRace, nAuth, nRetry := c.Budget(40, 320), c.Budget(50, 400), c.Budget(12, 100)
 		for i := 0; (i < nRace || i < nAuth) && c.NFailures() < 3; i++ {
 			if i < nAuth {
 				one(c, genAuth(c.Rng), "")
 			}
 			if i < nRace && c.NFailures() < 3 {
 				one(c, genRace(c.Rng), "")
+			}
+			if i < nRetry && c.NFailures() < 3 {
+				one(c, genRetry(c.Rng), "")
 			}
 		}
 		c.SetExtra("gateway_cases_wall_s", time.Since(start).Seconds())
